@@ -155,4 +155,3 @@ func DerivedParse(b *Built, pi int, input string) (ast any, err error, ok bool) 
 	}
 	return nil, nil, false
 }
-
